@@ -3,3 +3,8 @@ CHECKS["C03"] = {
     "note": "Trusted: the harness' O(n*m) interval comparison, Hypothesis' generators, the local file system.",
     "technique": "property-based testing (Hypothesis) against a brute-force reference model, plus exhaustive enumeration of small trees",
 }
+CHECKS["C01"] = {
+    "text": "Generated path templates (0-4 directory levels, year/year2/month/day/doy/hour, literal and user-placeholder levels, full/partial/no end fields, wildcards), generated file populations around day/month/year ends with distractors, local and zip file systems, exclude lists, filters, sort/bundle/only_path options and boundary-aligned query periods are compared with a brute-force filter over the harness' own list of created files (exact multiset, times, attributes, order, bundle partition, NoFilesError, `in`, len). Exploration: no counterexample in ~1000 generated trees per quick run; not a proof.",
+    "note": "Trusted: the harness' own name formatter and coverage model (vp/gen/filesets.py), the local file system and fsspec's ZipFileSystem, Hypothesis. Preconditions built into the generator: unambiguous templates (placeholders separated by literals), files in the directory of their start and no longer than one directory period.",
+    "technique": "property-based testing (Hypothesis) against a brute-force reference model over harness-owned ground truth",
+}
